@@ -1130,6 +1130,13 @@ class tensor:
             # As in mttkrp, the weights of a ktensor scale the columns of every result
             weights = U.weights
             U = U.factor_matrices
+        if len(U) != self.ndims:
+            assert False, "List of factor matrices is the wrong length"
+        if any(
+            M.ndim != 2 or M.shape[0] != s or M.shape[1] != U[0].shape[1]
+            for M, s in zip(U, self.shape)
+        ):
+            assert False, "Factor matrix has the wrong number of rows or columns"
         split_idx = min_split(self.shape)
         V = [np.empty_like(self.data, shape=())] * self.ndims
         K = ttb.khatrirao(*U[split_idx + 1 :], reverse=True)
